@@ -132,6 +132,7 @@ type Hist struct {
 	AckBehindOK int
 
 	revokesAt []uint64
+	Unwraps   []UnwrapRecord
 	Htlcs     []HtlcSecret
 	Projects  []types.Hash
 
